@@ -1,4 +1,201 @@
 (* C04 — name ownership follows the specification's state machine.
-   (theorems are added below as they are proved) *)
-From DV Require Import Lib.Base Registry.RegTypes Registry.Registry Spec.RegistrySpec.
+   Only theorem statements closed by [exact]; proofs live in Proofs/Registry*.v.
+
+   Model:          Registry/Registry.v      (step, run, the four query functions)
+   Specification:  Spec/RegistrySpec.v      (spec_step, spec_run; variants [literal] and
+                                             [as_implemented] = literal + exceptions F4, F4b)
+   A history is a list of events (Connect / Hello / AddMatch / RequestName /
+   ReleaseName / Disconnect) started from the empty bus with any per-connection
+   name limit.  The release order among the well-known names of a closing
+   connection is left open by the specification; [advice_run] reads the order the
+   model uses off the model's run and [valid_advice] states that it is one the
+   specification allows (a duplicate-free enumeration of exactly the names held,
+   the unique name last). *)
+From DV Require Import Lib.Base Gen.Tables Wire.Names Registry.RegTypes Registry.Registry
+  Spec.NamesSpec Spec.RegistrySpec
+  Proofs.RegistryBase Proofs.RegistryInv Proofs.RegistryRefine Proofs.RegistryDisc Proofs.RegistryMain.
 Local Open Scope N_scope.
+
+(* ------------------------------------------------------------------------------------------
+   The property at full strength: for every history the messages every connection receives
+   (per event, in delivery order: signals, then the reply), the resulting queues and the four
+   query methods are those of the LITERAL specification. *)
+Definition C04_full_statement : Prop :=
+  forall limit h, exists adv,
+    valid_advice literal (sinit limit) h adv 0 /\
+    snd (spec_run literal (sinit limit) h adv 0) = snd (run (init_bus limit) h) /\
+    forall a, list_queued_owners (fst (run (init_bus limit) h)) a = spec_queued (fst (spec_run literal (sinit limit) h adv 0)) a.
+
+(* What holds for every history: the same with the two recorded exceptions switched on
+   (Spec.RegistrySpec.as_implemented: F4 queue position, F4b limit on re-requests). *)
+Theorem C04_refines_partial : forall limit h,
+  let adv := advice_run (init_bus limit) h 0 in
+  valid_advice as_implemented (sinit limit) h adv 0 /\
+  snd (spec_run as_implemented (sinit limit) h adv 0) = snd (run (init_bus limit) h) /\
+  R (fst (run (init_bus limit) h)) (fst (spec_run as_implemented (sinit limit) h adv 0)).
+Proof. exact refines_partial. Qed.
+Print Assumptions C04_refines_partial.
+
+(* ... and the literal specification itself on every history in which neither exceptional
+   situation arises ([quiet]: [exception_trigger] is false at every step). *)
+Theorem C04_refines_outside_exceptions : forall limit h,
+  let adv := advice_run (init_bus limit) h 0 in
+  quiet as_implemented (sinit limit) h adv 0 ->
+  valid_advice literal (sinit limit) h adv 0 /\
+  snd (spec_run literal (sinit limit) h adv 0) = snd (run (init_bus limit) h) /\
+  R (fst (run (init_bus limit) h)) (fst (spec_run literal (sinit limit) h adv 0)).
+Proof. exact refines_outside_exceptions. Qed.
+Print Assumptions C04_refines_outside_exceptions.
+
+(* the two variants of the specification differ in no other situation, in any state *)
+Theorem C04_exceptions_are_the_only_difference : forall s e ord,
+  exception_trigger s e = false -> spec_step literal s e ord = spec_step as_implemented s e ord.
+Proof. exact literal_step_eq. Qed.
+Print Assumptions C04_exceptions_are_the_only_difference.
+
+(* Refutation witnesses (replayed on the real daemon by tools/props/c04.py, corpus/C04/f4_new.json
+   and f4b_owner.json).  "a.b" = [97;46;98]. *)
+Definition nameA : bytes := [97; 46; 98].
+
+Definition f4_history : list event :=
+  [EvConnect; EvHello 0; EvConnect; EvHello 1; EvConnect; EvHello 2;
+   EvRequest 0 nameA 0; EvRequest 1 nameA 0; EvRequest 2 nameA 2].
+
+(* F4: queue [0;1], connection 2 asks with REPLACE_EXISTING and cannot replace:
+   the code gives [0;2;1], the specification [0;1;2] *)
+Theorem C04_queue_position_refuted : forall adv,
+  list_queued_owners (fst (run (init_bus 512) f4_history)) (QS nameA) = Some [WConn 0; WConn 2; WConn 1] /\
+  spec_queued (fst (spec_run literal (sinit 512) f4_history adv 0)) (QS nameA) = Some [WConn 0; WConn 1; WConn 2].
+Proof. intros adv. split; vm_compute; reflexivity. Qed.
+Print Assumptions C04_queue_position_refuted.
+
+Definition f4b_history : list event :=
+  [EvConnect; EvHello 0; EvRequest 0 nameA 1; EvRequest 0 nameA 0].
+
+(* F4b: with max_names_per_connection = 2 the owner of a.b (holding 2 names: unique + a.b)
+   re-requests it: the code answers LimitsExceeded, the specification ALREADY_OWNER (4) *)
+Theorem C04_limit_rerequest_refuted : forall adv,
+  nth 3 (snd (run (init_bus 2) f4b_history)) [] = [(0, MError ELimitsExceeded)] /\
+  nth 3 (snd (spec_run literal (sinit 2) f4b_history adv 0)) [] = [(0, MReply 4)].
+Proof. intros adv. split; vm_compute; reflexivity. Qed.
+Print Assumptions C04_limit_rerequest_refuted.
+
+Theorem C04_full_statement_refuted : ~ C04_full_statement.
+Proof.
+  intros H. destruct (H 512 f4_history) as [adv [_ [_ Hq]]]. specialize (Hq (QS nameA)).
+  destruct (C04_queue_position_refuted adv) as [E1 E2]. rewrite E1, E2 in Hq. discriminate.
+Qed.
+Print Assumptions C04_full_statement_refuted.
+
+(* ------------------------------------------------------------------------------------------
+   "A name never has two primary owners": in every reachable state the service table has
+   no name twice, every stored name has an owner (the head of its queue), no connection is
+   in a queue twice, and nobody waits with DO_NOT_QUEUE. *)
+Theorem C04_single_primary : forall limit h,
+  NoDup (map fst (b_services (fst (run (init_bus limit) h)))) /\
+  forall k q, lookup (b_services (fst (run (init_bus limit) h))) k = Some q ->
+    q <> [] /\ NoDup (map o_conn q) /\ (forall o, In o (tl q) -> o_dnq o = false).
+Proof. intros limit h. split; [exact (service_keys_unique limit h) | exact (single_primary limit h)]. Qed.
+Print Assumptions C04_single_primary.
+
+(* the whole invariant (queues, connection table, services_owned bookkeeping, unique names) *)
+Theorem C04_invariant : forall limit h, inv (fst (run (init_bus limit) h)).
+Proof. exact reachable_inv. Qed.
+Print Assumptions C04_invariant.
+
+(* ------------------------------------------------------------------------------------------
+   "The bus's own name and unique names can be neither requested nor released":
+   a name that is not [requestable] (not a valid well-known name by the grammar of the
+   specification, or starting with ':', or org.freedesktop.DBus) is never in the table, and
+   RequestName / ReleaseName for it change nothing and answer InvalidArgs. *)
+Theorem C04_reserved :
+  (forall limit h name, requestable name = false ->
+     lookup (b_services (fst (run (init_bus limit) h))) (KW name) = None) /\
+  (forall b c cn name flags, find_conn (b_conns b) c = Some cn -> c_active cn = true -> requestable name = false ->
+     step b (EvRequest c name flags) = (b, [(c, MError EInvalidArgs)])) /\
+  (forall b c cn name, find_conn (b_conns b) c = Some cn -> c_active cn = true -> requestable name = false ->
+     step b (EvRelease c name) = (b, [(c, MError EInvalidArgs)])) /\
+  requestable bus_name_str = false /\
+  (forall r, requestable (58 :: r) = false).
+Proof.
+  split; [exact reserved_never_owned|]. split; [exact reserved_request_refused|]. split; [exact reserved_release_refused|].
+  split; [exact bus_name_not_requestable | exact colon_not_requestable].
+Qed.
+Print Assumptions C04_reserved.
+
+(* ------------------------------------------------------------------------------------------
+   "GetNameOwner, NameHasOwner, ListNames and ListQueuedOwners always agree with that state":
+   after every history the model's query functions (written after the C handlers) are the
+   specification's projections of the refined state (ListNames as a set). *)
+Theorem C04_queries_agree : forall limit h a,
+  let b := fst (run (init_bus limit) h) in
+  let s := fst (spec_run as_implemented (sinit limit) h (advice_run (init_bus limit) h 0) 0) in
+  get_name_owner b a = spec_owner s a /\
+  name_has_owner b a = spec_has_owner s a /\
+  list_queued_owners b a = spec_queued s a /\
+  (forall k, In k (list_names b) <-> spec_listed s k).
+Proof. exact queries_agree_reachable. Qed.
+Print Assumptions C04_queries_agree.
+
+(* ------------------------------------------------------------------------------------------
+   "those sent to the requester arriving before its reply": in every reachable state the
+   output of a RequestName / ReleaseName by a connected caller ends with the reply (or
+   error) to the caller and contains no other reply; all signals precede it. *)
+Theorem C04_signals_before_reply : forall limit h e c,
+  (exists name flags, e = EvRequest c name flags) \/ (exists name, e = EvRelease c name) ->
+  find_conn (b_conns (fst (run (init_bus limit) h))) c <> None ->
+  reply_last c (snd (step (fst (run (init_bus limit) h)) e)).
+Proof. exact signals_before_reply_reachable. Qed.
+Print Assumptions C04_signals_before_reply.
+
+(* the reply codes say what happened: read on the queue after the call *)
+Theorem C04_reply_code_meaning : forall v q c flags,
+  NoDup (map o_conn q) -> (forall o, In o (tl q) -> o_dnq o = false) ->
+  let q' := request_queue v q c flags in
+  match request_code q c flags with
+  | 4 => primary q = Some c /\ primary q' = Some c
+  | 1 => primary q <> Some c /\ primary q' = Some c
+  | 2 => primary q <> Some c /\ primary q' = primary q /\ queued c q' = true
+  | 3 => primary q <> Some c /\ primary q' = primary q /\ queued c q' = false
+  | _ => False
+  end.
+Proof. exact reply_code_meaning. Qed.
+Print Assumptions C04_reply_code_meaning.
+
+(* the places where the C code asserts (or would dereference NULL) are unreachable: the
+   model never reports MFault for an event of a connected client *)
+Theorem C04_no_assertion_reached : forall limit h e,
+  (forall c, event_conn e = Some c -> find_conn (b_conns (fst (run (init_bus limit) h))) c <> None) ->
+  forall o, In o (snd (step (fst (run (init_bus limit) h)) e)) -> snd o <> MFault.
+Proof. exact no_fault_reachable. Qed.
+Print Assumptions C04_no_assertion_reached.
+
+(* ------------------------------------------------------------------------------------------
+   non-vacuity *)
+Definition ex_history : list event :=
+  [EvConnect; EvHello 0; EvAddMatch 0; EvConnect; EvHello 1; EvConnect; EvHello 2;
+   EvRequest 0 nameA 1; EvRequest 1 nameA 0; EvRequest 2 nameA 3; EvRelease 2 nameA; EvDisconnect 0].
+
+(* a history with replacement, hand-over on release and on disconnect is [quiet] ... *)
+Example ex_quiet : quiet as_implemented (sinit 512) ex_history (advice_run (init_bus 512) ex_history 0) 0.
+Proof. vm_compute. repeat split. Qed.
+
+(* ... the replacing RequestName delivers NameLost, NameOwnerChanged, NameAcquired, then the reply *)
+Example ex_replace_output :
+  nth 9 (snd (run (init_bus 512) ex_history)) [] =
+  [(0, MLost (KW nameA)); (0, MNOC (KW nameA) (Some 0) (Some 2)); (2, MAcquired (KW nameA)); (2, MReply 1)].
+Proof. vm_compute. reflexivity. Qed.
+
+(* ... and after the owner released and the first owner left, connection 1 owns the name *)
+Example ex_final_owner : get_name_owner (fst (run (init_bus 512) ex_history)) (QS nameA) = Some (WConn 1).
+Proof. vm_compute. reflexivity. Qed.
+
+(* both exceptional situations are reachable *)
+Example ex_trigger_f4 : exception_trigger (fst (spec_run as_implemented (sinit 512) (removelast f4_history) (fun _ => []) 0)) (EvRequest 2 nameA 2) = true.
+Proof. vm_compute. reflexivity. Qed.
+Example ex_trigger_f4b : exception_trigger (fst (spec_run as_implemented (sinit 2) (removelast f4b_history) (fun _ => []) 0)) (EvRequest 0 nameA 0) = true.
+Proof. vm_compute. reflexivity. Qed.
+
+(* names that are refused / accepted *)
+Example ex_requestable : requestable nameA = true. Proof. reflexivity. Qed.
+Example ex_unique_refused : requestable [58; 49; 46; 53] = false. Proof. reflexivity. Qed.
